@@ -63,8 +63,34 @@ def timings (evs : List Ev) (sb : Nat) : String :=
     | .inC s _ => if s = sb then acc ++ "C" else acc
     | _ => acc) ""
 
+/-- `cbmany`: n registrations (owner i holds function i), one release, two more registrations; then the function behind
+every live owner's entry point (the slot it was given), computed on `Lifecycle.World` -/
+def cbMany (sb n unreg : Nat) : Option String := do
+  let w0 := World.init 64
+  let (w1, _) ← w0.create 0 true 0
+  let (w2, _) ← w1.create 1 true 0
+  let regs (w : World) (is : List Nat) : Option (World × List (Nat × Nat)) :=
+    is.foldlM (fun (acc : World × List (Nat × Nat)) i => do
+      let (w', k) ← acc.1.register sb i i
+      pure (w', acc.2 ++ [(i, k)])) (w, [])
+  let (w3, s1) ← regs w2 (List.range n)
+  let w4 ← if unreg < n then w3.release unreg else some w3
+  let (w5, s2) ← regs w4 [n, n + 1]
+  let outs := (s1 ++ s2).map fun (i, k) =>
+    if i = unreg then "-" else match (w5.sbx sb).slots k with | some f => toString f | none => "null"
+  pure ("ok " ++ String.intercalate " " outs)
+
 def step (t : List String) : Option String :=
   match t with
+  | ["cbptr", _sb, v] => do
+      -- the callback's pointer result designates the cell it allocated; the guest reads the value stored there
+      let v ← parseInt? v
+      if v < -(2 ^ 31) ∨ v ≥ 2 ^ 31 then none else pure s!"ok {v}"
+  | ["cbmany", sb, n, unreg] => do
+      let sb ← sb.toNat?; let n ← n.toNat?; let u ← parseInt? unreg
+      match cbMany sb n (if u < 0 then n + 100 else u.toNat) with
+      | some r => pure r
+      | none => pure "abort"
   | cmd :: rest =>
       if cmd != "tree" ∧ cmd != "treen" ∧ cmd != "treenh" then none else
       let noop := cmd == "treen" ∨ cmd == "treenh"
